@@ -10,6 +10,7 @@ import (
 	"math"
 	"math/rand"
 	"os"
+	"os/exec"
 	"path/filepath"
 	"sort"
 	"strings"
@@ -25,7 +26,18 @@ import (
 	"verifharness/wl"
 )
 
-func init() { commands["brun"] = brun }
+func init() {
+	commands["brun"] = brun
+	rosgen.Bz2 = func(b []byte) []byte {
+		cmd := exec.Command("python3", "-c", "import bz2,sys; sys.stdout.buffer.write(bz2.compress(sys.stdin.buffer.read()))")
+		cmd.Stdin = bytes.NewReader(b)
+		out, err := cmd.Output()
+		if err != nil {
+			panic("bzip2 through python3 failed: " + err.Error())
+		}
+		return out
+	}
+}
 
 func limbs(prefix string, e map[string]any, ns uint64) {
 	q, r := ns/1000000000, ns%1000000000
@@ -191,7 +203,7 @@ func genBag(r *rand.Rand, g *gen.G) []rosgen.Rec {
 	case 0: // unchunked
 		recs = append(recs, body...)
 	default:
-		comp := []string{"none", "lz4"}[r.Intn(2)]
+		comp := []string{"none", "lz4", "bz2", "lz4", "none"}[r.Intn(5)]
 		for len(body) > 0 {
 			k := 1 + r.Intn(len(body))
 			recs = append(recs, rosgen.Rec{Kind: "chunk", Compression: comp, Inner: body[:k]})
